@@ -1,6 +1,6 @@
 """C08 - every documented operation is offered with its effective parameters, or reported.
 
-E2 enumerates small OpenAPI 3.0 documents (path items x methods x path-/operation-level parameters x references x
+E2 enumerates small OpenAPI 3.0 (and, families W, Swagger 2.0) documents (path items x methods x path-/operation-level parameters x references x
 request bodies x security x malformed entries x JSON/YAML x one/two files x loaders); E5 enumerates, for each document,
 every sequence of accesses up to a depth on a FRESH schema per sequence (the lookups share three caches and one
 reference-resolution scope stack).  The oracle is the reference merge of ``oracles/merge.py`` computed from the raw dict.
@@ -17,6 +17,7 @@ import shutil
 import tempfile
 from typing import Any
 
+from mc import c08_extra as extra
 from mc import c08docs as docs
 from mc.runner import Result, digest
 from oracles import merge
@@ -29,16 +30,24 @@ RULE = (
     "work item = one OpenAPI document of the grammar (family P: path-level subset of {q,id,h} x <=2 operation-level overrides/"
     "relocations x reference depth 0-2 x 1-2 methods; S: body kinds x security kinds; R: 2 path items x placement inline/"
     "same-file $ref/sibling-file $ref x reference depth x pointer collision; M: one malformed entry per position; Y: one "
-    "YAML-sensitive token per position; L: loaders x serialisations) x a loader; for each, EVERY access history up to the "
+    "YAML-sensitive token per position; L: loaders x serialisations; review round 2 - X: the override documents rewritten "
+    "(`required: false` left out / fixed fields and extensions next to methods and parameter keywords / `parameters` after the "
+    "methods / reversed lists / operationId on one operation only / one path-level name in two locations); S2: security schemes "
+    "behind $ref x requirement shapes; C: both orders of the two path items x all placements, three files, inline path items whose "
+    "parameters live in the other file with nested local references, path item $ref chain of two; W: Swagger 2.0 body/formData "
+    "at path and operation level x consumes global/operation/empty x securityDefinitions; E: paths needing ~0/~1 escapes and the "
+    "percent-encoded reference spelling) x a loader; for each, EVERY access history up to the "
     "depth over {iterate all, schema[path][METHOD], get_operation_by_id, get_operation_by_reference} per documented operation "
     "is replayed on a fresh schema and the result of its last access is compared with the reference merge; distinct = distinct "
     "(document, loader, history); non-trivial = the last access concerns a documented operation and was judged"
 )
 BOUNDS = {
     "quick": {"depth_P": 2, "depth_S": 2, "depth_R": 3, "depth_M": 2, "depth_Y": 1, "depth_L": 1, "own_codes": 8, "max_own": 2,
-              "ref_depth": 2, "path_items": 2, "methods_per_item": 2},
+              "ref_depth": 2, "path_items": 2, "methods_per_item": 2,
+              "depth_X": 2, "depth_C": 2, "depth_W": 2, "depth_E": 2, "files": 3, "path_item_ref_chain": 2},
     "thorough": {"depth_P": 3, "depth_S": 3, "depth_R": 4, "depth_M": 3, "depth_Y": 2, "depth_L": 2, "own_codes": 10, "max_own": 2,
-                 "ref_depth": 2, "path_items": 2, "methods_per_item": 2},
+                 "ref_depth": 2, "path_items": 2, "methods_per_item": 2,
+                 "depth_X": 3, "depth_C": 3, "depth_W": 3, "depth_E": 3, "files": 3, "path_item_ref_chain": 2},
 }
 BUDGET_S = {"quick": 150, "thorough": 3000}
 CHUNK = 4
@@ -53,11 +62,17 @@ LEVEL_TEXT = (
 )
 LEVEL_NOTE = (
     "Trusted: oracles/merge.py (OAS 3.0 merge rules, RFC 6901 walker), mc/c08docs.py (grammar, YAML emitter, self-checked with "
-    "PyYAML's resolver-free BaseLoader). Not covered: Swagger 2.0 documents, `content`-style parameters, remote (http) "
-    "references, histories deeper than the bound, concurrent access (C13b)."
+    "PyYAML's resolver-free BaseLoader), mc/c08_extra.py (document rewrites; Swagger 2.0 grammar and its reference merge written "
+    "from the OpenAPI 2.0 text). Not covered: `content`-style parameters, remote (http) references, Swagger 2.0 multi-file "
+    "layouts, filtered (include/exclude) schemas, histories deeper than the bound, concurrent access (C13b)."
 )
 ASSUMPTIONS = [
-    "OpenAPI 3.0 documents only; parameter schemas are flat keyword sets (type/enum/example) so that JSON-Schema conversion is the identity",
+    "OpenAPI 3.0 and Swagger 2.0 documents; parameter schemas are flat keyword sets (type/enum/example) so that JSON-Schema conversion is the identity",
+    "Swagger 2.0: where neither the operation nor the document gives a non-empty `consumes`, the payload is expected under whatever "
+    "media types the implementation chose (at least one); the joined formData payload is compared by field names, field schemas and "
+    "the set of required fields (the container has no `required` flag of its own in the 2.0 text)",
+    "requirement objects are read as the first version did (every scheme named in any requirement is active); alternatives "
+    "(`[{a: []}, {b: []}]`) are not enumerated because the property does not say which of them is offered",
     "the effective non-body definition of an operation is read through the real parameters_to_json_schema(operation, container) "
     "(the function data generation uses); body alternatives are read from operation.body",
     "security parameters are compared by (name, location, required) only - their value schema is the implementation's choice",
@@ -240,8 +255,179 @@ def _family_y(tier: str) -> list[dict]:
     return out
 
 
+# -- review round 2: shapes written by mc/c08_extra.py ------------------------------------------------------------
+
+
+def _family_x(tier: str) -> list[dict]:
+    """Override documents of family P in other WRITINGS of the same meaning: `required: false` left out, fixed fields and
+    extensions next to methods / parameter keywords, `parameters` after the methods, reversed lists, ids on one operation
+    only; and path-level parameters with one name in two locations."""
+    b = BOUNDS[tier]
+    codes = docs.OWN_CODES_QUICK if tier == "quick" else docs.OWN_CODES_THOROUGH
+    out = []
+    for shared in (["q", "h"], ["q", "id", "h"], ["q", "q@h"]):
+        path = "/a/{id}" if "id" in shared else "/a"
+        # quick: two operation-level parameters only next to all three path-level ones
+        max_own = b["max_own"] if (tier == "thorough" or len(shared) == 3) else 1
+        for own in _own_lists(codes, max_own, shared):
+            if not own:
+                continue
+            if shared == ["q", "q@h"]:
+                rewrites: list = [None, "omit_required", "reversed"]
+            elif shared == ["q", "h"] and tier == "quick":
+                rewrites = ["omit_required", "noise", "reversed"]
+            else:
+                rewrites = ["omit_required", "noise", "params_last", "reversed", "partial_ids"]
+            for rewrite in rewrites:
+                for sref, oref in ((0, 0), (1, 1), (2, 2)):
+                    if (sref, oref) == (1, 1) and rewrite not in (None, "omit_required") and tier == "quick":
+                        continue
+                    if (sref, oref) == (2, 2) and tier == "quick":
+                        continue
+                    ops = [{"method": "get", "own": own, "own_ref": oref}, {"method": "post"}]
+                    spec = {"items": [{"name": "A", "path": path, "shared": shared, "shared_ref": sref, "ops": ops}],
+                            "extra": [[rewrite]] if rewrite else []}
+                    out.append({"family": "X", "spec": spec, "load": "dict", "depth": b["depth_X"]})
+    return out
+
+
+def _family_s2(tier: str) -> list[dict]:
+    """Security schemes behind `$ref`; requirement shapes: the empty requirement object, a cookie apiKey asked for by one
+    operation, an explicit empty global list with an operation-level requirement."""
+    b = BOUNDS[tier]
+    out = []
+    for security in ("hdr_basic", "collide_bearer", "local_only"):
+        for own in ([], ["q!sr"]):
+            shapes: list[tuple[Any, list]] = [(op_sec, [["sec_ref"]]) for op_sec in (None, "optout", "own")]
+            for with_ref in ([], [["sec_ref"]]):
+                shapes.append((None, [["op_security", "/a", "post", [{}]]] + with_ref))
+                if security != "local_only":
+                    shapes.append((None, [["op_security", "/a", "post", [{"u": []}]]] + with_ref))
+                shapes.append((None, [["root_security", []], ["op_security", "/a", "post", [{"k": []}]]] + with_ref))
+            for op_sec, steps in shapes:
+                ops = [{"method": "post", "own": own, "body": "none", "security": op_sec}, {"method": "get"}]
+                spec = {"security": security, "items": [{"name": "A", "path": "/a", "shared": ["h"], "ops": ops}], "extra": steps}
+                out.append({"family": "S2", "spec": spec, "load": "dict", "depth": b["depth_S"]})
+    return out
+
+
+def _c_spec(a_place: str, b_place: str, ref_depth: int, collide: bool = True, order: str = "AB", b_put: bool = False) -> dict:
+    a_ops = [{"method": "get", "own": ["id@q"], "own_ref": ref_depth}, {"method": "post", "body": "rec"}]
+    b_ops: list[dict] = [{"method": "get"}]
+    if b_put:
+        b_ops.append({"method": "put", "own": ["q@h"], "own_ref": ref_depth, "body": "two"})
+    a = {"name": "A", "path": "/a", "place": a_place, "shared": ["q"], "shared_ref": ref_depth, "refs_to": "local", "ops": a_ops}
+    bb = {"name": "B", "path": "/b/{id}", "place": b_place, "shared": ["id"], "shared_ref": ref_depth, "refs_to": "local", "ops": b_ops}
+    return {"security": "hdr_basic", "collide": collide, "items": [a, bb] if order == "AB" else [bb, a]}
+
+
+def _family_c(tier: str) -> list[dict]:
+    """Layouts: the inline path item FIRST and the `$ref`'d one after it / both orders of the two path items; three files;
+    inline path items whose parameters and bodies live in the other file (nested references local to that file); security
+    schemes behind `$ref` in multi-file layouts; a path item `$ref` chain of two."""
+    b = BOUNDS[tier]
+    all_places = [(x, y) for x in ("inline", "same", "sibling") for y in ("inline", "same", "sibling")]
+    out: list[dict] = []
+
+    def add(spec: dict, steps: list, depth: int | None = None) -> None:
+        built_files = len(extra.build({**spec, "extra": steps})[1])
+        out.append({"family": "C", "spec": {**spec, "extra": steps}, "load": "path" if built_files > 1 else "dict",
+                    "depth": depth or b["depth_C"]})
+
+    # (a) order of the path items
+    for a_place, b_place in all_places:
+        for order in ("AB", "BA"):
+            if order == "AB" and (a_place, b_place) not in (("inline", "same"), ("inline", "sibling"), ("same", "sibling"), ("sibling", "same")):
+                continue  # the other natural-order placements are family R's
+            for collide in ((True, False) if "sibling" in (a_place, b_place) else (True,)):
+                add(_c_spec(a_place, b_place, 2, collide, order, b_put=(order == "BA" and a_place != b_place)), [])
+    # (b) three files; with `subdir` the two non-root files live in sub/ and the root's directory holds a decoy of the third
+    for a_place, b_place in (("sibling", "inline"), ("sibling", "sibling"), ("inline", "sibling")):
+        for collide in (True, False):
+            for ref_depth, nest, subdir in ((1, True, False), (2, False, False), (1, False, True), (2, True, True)):
+                add(_c_spec(a_place, b_place, ref_depth, collide), [["externalise", "sibling", nest, subdir]])
+    # (c) inline / same-file path items, everything they refer to in the other file
+    for a_place, b_place in (("inline", "inline"), ("same", "inline"), ("same", "same"), ("inline", "sibling")):
+        for ref_depth, nest in ((1, False), (1, True), (2, True)):
+            add(_c_spec(a_place, b_place, ref_depth, b_put=b_place != "sibling"), [["externalise", "root", nest]])
+    # (d) security schemes behind `$ref`
+    for a_place, b_place in (("inline", "inline"), ("same", "same"), ("sibling", "inline"), ("sibling", "sibling"), ("inline", "sibling")):
+        for ref_depth in (0, 2):
+            add(_c_spec(a_place, b_place, ref_depth), [["sec_ref"]])
+    # (e) path item `$ref` chains
+    for (a_place, b_place), mode in ((("same", "inline"), "root"), (("sibling", "inline"), "root"), (("sibling", "inline"), "far"),
+                                     (("sibling", "sibling"), "far")):
+        add(_c_spec(a_place, b_place, 0), [["chain", mode]])
+    return out
+
+
+def _family_w(tier: str) -> list[dict]:
+    """Swagger 2.0: `in: body` / `in: formData` parameters at path and operation level, `consumes` inheritance,
+    `securityDefinitions`."""
+    b = BOUNDS[tier]
+    shapes = [
+        (["B"], [[], ["B!"], ["q"], ["payload@q"]]),
+        (["q", "B"], [[], ["B!"], ["q!"], ["q!", "B!"]]),
+        (["Bd"], [[], ["B!"]]),
+        (["f", "g"], [[], ["f!"], ["f@q"]]),
+        (["q", "f"], [["f!"], ["q!", "f!"]]),
+        ([], [["B"], ["f", "g"]]),
+        (["q", "id", "h"], [["h!"], ["q!"]]),
+    ]
+    out = []
+
+    def add(shared: list, own: list, consumes: Any, op_consumes: Any, ref: int, security: str = "none", op_sec: Any = None,
+            place: str = "inline", steps: list | None = None, load: str = "dict", ext: str = "json") -> None:
+        path = "/a/{id}" if "id" in shared else "/a"
+        ops = [{"method": "post", "own": own, "own_ref": ref, "consumes": op_consumes, "security": op_sec}, {"method": "put"}]
+        spec = {"swagger": True, "ext": ext, "consumes": consumes, "security": security, "extra": steps or [],
+                "items": [{"name": "A", "path": path, "place": place, "shared": shared, "shared_ref": ref, "ops": ops}]}
+        out.append({"family": "W", "spec": spec, "load": load, "depth": b["depth_W"]})
+
+    for shared, owns in shapes:
+        for own in owns:
+            for consumes in (None, ["application/json"], ["application/json", "application/xml"]):
+                for op_consumes in (None, ["text/plain"], []):
+                    if op_consumes == [] and consumes is None:
+                        continue
+                    for ref in (0, 1):
+                        if ref == 1 and (op_consumes is not None and tier == "quick"):
+                            continue
+                        add(shared, own, consumes, op_consumes, ref)
+            if tier == "quick" and own != owns[min(1, len(owns) - 1)]:
+                continue
+            # one more writing / layout / loader each (quick: for one operation-level list per path-level list)
+            add(shared, own, ["application/json"], None, 0, place="same")
+            for rewrite in ("noise", "reversed", "params_last"):
+                add(shared, own, ["application/json", "application/xml"], None, 1, steps=[[rewrite]])
+            add(shared, own, ["application/json"], None, 1, load="file_yaml", ext="yaml")
+            add(shared, own, ["application/json"], None, 1, load="path", ext="json")
+    for own in ([], ["B!"], ["q!"], ["q!", "B!"]):
+        for security in ("basic_key", "collide"):
+            for op_sec in (None, "optout", "own"):
+                if op_sec == "own" and security == "collide":
+                    continue
+                add(["q", "B"], own, ["application/json"], None, 0, security=security, op_sec=op_sec)
+    return out
+
+
+def _family_e(tier: str) -> list[dict]:
+    """Spellings of the JSON reference: paths that need `~0` / `~1` escapes, and the percent-encoded fragment form."""
+    b = BOUNDS[tier]
+    out = []
+    for old, new in (("/a", "/a~b"), ("/a", "/a~1b"), ("/a", "/a~01b"), ("/a", "/a b"), ("/a/{id}", "/a/{id}"), ("/a/{id}", "/a~0/{id}")):
+        shared = ["q", "id"] if "{id}" in old else ["q"]
+        ops = [{"method": "get", "own": ["q!sr"]}, {"method": "post", "body": "one"}]
+        spec = {"pct": True, "items": [{"name": "A", "path": old, "shared": shared, "ops": ops},
+                                       {"name": "B", "path": "/a/b", "shared": ["h"], "ops": [{"method": "get"}]}],
+                "extra": [["rename_path", old, new]]}
+        out.append({"family": "E", "spec": spec, "load": "dict", "depth": b["depth_E"]})
+    return out
+
+
 def items(tier: str, seed: int) -> list[dict]:
     out = _family_m(tier) + _family_y(tier) + _family_s(tier) + _family_l(tier) + _family_p(tier) + _family_r(tier)
+    out += _family_e(tier) + _family_s2(tier) + _family_c(tier) + _family_w(tier) + _family_x(tier)
     # heavy (deep-history) items are spread over the list so that the workers finish together
     heavy = [i for i in out if i["family"] == "R"]
     light = [i for i in out if i["family"] != "R"]
@@ -266,7 +452,7 @@ class Session:
 
     def __init__(self, item: dict):
         self.item = item
-        self.root_name, self.files = docs.build(item["spec"])
+        self.root_name, self.files = extra.build(item["spec"])
         self.load = item["load"]
         self.ext = item["spec"].get("ext", "json")
         self.tmp: str | None = None
@@ -277,6 +463,7 @@ class Session:
         if self.load == "path":
             self.tmp = tempfile.mkdtemp(prefix=TMP_PREFIX)
             for name, text in self.texts.items():
+                os.makedirs(os.path.dirname(os.path.join(self.tmp, name)), exist_ok=True)
                 with open(os.path.join(self.tmp, name), "w", encoding="utf-8") as fd:
                     fd.write(text)
 
@@ -339,9 +526,17 @@ def observe(operation: Any) -> dict:
         }
     for alternative in operation.body:
         definition = alternative.definition
-        view["body"].setdefault(alternative.media_type, []).append(
-            {"required": bool(alternative.is_required), "schema": definition.get("schema", {}) if isinstance(definition, dict) else definition}
-        )
+        if isinstance(definition, list):
+            # Swagger 2.0 `formData` parameters joined into one payload: read through the real conversion, as above
+            # (the container itself has no `required` flag in the 2.0 text - its fields have; the form object as a whole
+            # counts as required exactly when one of its fields is)
+            joined = alternative.as_json_schema(operation)
+            body_schema: Any = {"properties": joined["properties"], "required": sorted(joined["required"])}
+            body_required = bool(joined["required"])
+        else:
+            body_schema = definition.get("schema", {}) if isinstance(definition, dict) else definition
+            body_required = bool(alternative.is_required)
+        view["body"].setdefault(alternative.media_type, []).append({"required": body_required, "schema": body_schema})
     return view
 
 
@@ -431,8 +626,12 @@ class Judge:
         self.res = res
         self.session = session
         self.item = item
-        self.files = merge.Files(session.root_name, session.files)
-        self.entries = merge.reference(self.files)
+        self.files = extra.DirFiles(session.root_name, session.files)  # = merge.Files for names without directories
+        self.swagger = bool(item["spec"].get("swagger"))
+        self.entries = extra.reference20(self.files) if self.swagger else merge.reference(self.files)
+        self.chain = extra.chain_lengths(session.root_name, session.files)
+        self.extras = [step[0] + ("_" + str(step[1]) if step[0] in ("externalise", "chain") and len(step) > 1 else "")
+                       for step in item["spec"].get("extra", [])]
         self.alt: dict[tuple, dict] = {}
         self.alt_files: merge.Files | None = None
         if session.two_files:
@@ -461,12 +660,24 @@ class Judge:
             self.res.violation(signature, {"document": self.session.files, "load": self.session.load, **detail})
 
     def facts(self, entry: dict | None, action: list, history: list) -> dict:
-        return {
+        out = {
             "lookup": action[0] != "iter",
             "prior": "none" if len(history) == 1 else "some",
-            "path_item_ref": entry.get("path_item_ref") if entry else None,
-            "layout": "two_files" if self.session.two_files else "single_file",
+            "layout": {1: "single_file", 2: "two_files", 3: "three_files"}.get(len(self.session.files), "subdirectory"),
+            **self.entry_facts(entry),
         }
+        # review round 2: facts that exist only for the new shapes (the signatures of the first grammar are unchanged)
+        if self.swagger:
+            out["spec"] = "swagger_2.0"
+        if action[0] == "ref" and len(action) > 4:
+            out["ref_form"] = action[4]
+        return out
+
+    def entry_facts(self, entry: dict | None) -> dict:
+        out: dict[str, Any] = {"path_item_ref": entry.get("path_item_ref") if entry else None}
+        if entry is not None and self.chain.get(entry["path"], 0) > 1:
+            out["path_item_chain"] = self.chain[entry["path"]]
+        return out
 
     def cause_of_raise(self, entry: dict, action: list, exc: BaseException) -> str:
         """Input-shape facts that separate the known ways a lookup of a well-formed operation can raise."""
@@ -514,9 +725,17 @@ class Judge:
             self.alarm({"kind": "wellformed_operation_unusable", **facts, "error": _error_name(exc)},
                        {"history": history, "error": self.session.strip(repr(exc))[:400], "expected": _entry_summary(entry)})
             return
+        entry = extra.bind_open_media_types(entry, list(view["body"]))
         diffs, undecided = compare(self.files, view, entry, self.alt.get((entry["path"], entry["method"])), self.alt_files)
         res.count("schema_comparisons_cut_at_recursion_budget", undecided)
         res.count(f"lookups_judged_{action[0]}")
+        if action[0] == "ref" and len(action) > 4:
+            res.count(f"lookups_judged_ref_{action[4]}")
+        if not diffs:
+            for name in self.extras:
+                res.count(f"cov_lookup_equal_{name}")
+            if self.swagger:
+                res.count("cov_lookup_equal_swagger")
         if not diffs:
             res.outcomes.add("lookup_equal")
         for d in diffs:
@@ -562,9 +781,11 @@ class Judge:
             if path is not None and path not in documented_paths:
                 self.alarm({"kind": "error_names_unknown_path", **facts}, {"history": history, "path": path})
         for entry in self.entries:
-            f = {**facts, "path_item_ref": entry.get("path_item_ref")}
+            f = {**facts, **self.entry_facts(entry)}
             key = (entry["path"], entry["method"])
             err_here = any(p == entry["path"] and (m is None or entry["method"] is None or str(m).lower() == entry["method"]) for p, m in errs)
+            if "path_item_chain" in f:
+                res.count("operations_behind_path_item_chain_judged")
             if entry["whole_path"]:
                 if err_here:
                     res.count("unreadable_path_item_reported")
@@ -595,6 +816,7 @@ class Judge:
                     self.alarm({"kind": "wellformed_operation_unusable", **f, "error": _error_name(exc)},
                                {"history": history, "error": self.session.strip(repr(exc))[:400], "expected": _entry_summary(entry)})
                     continue
+                entry = extra.bind_open_media_types(entry, list(view["body"]))
                 diffs, undecided = compare(self.files, view, entry, self.alt.get(key), self.alt_files)
                 res.count("schema_comparisons_cut_at_recursion_budget", undecided)
                 res.count("iterated_operations_judged")
@@ -643,6 +865,24 @@ class Judge:
             res.count("cov_sibling_file_operation_equal")
         if entry.get("path_item_ref") == "same_file":
             res.count("cov_same_file_ref_operation_equal")
+        for name in self.extras:
+            res.count(f"cov_equal_{name}")
+        if entry.get("overridden") and "omit_required" in self.extras:
+            res.count("cov_override_equal_with_required_left_out")
+        if len(self.session.files) == 3:
+            res.count("cov_three_files_operation_equal")
+        if any("/" in name for name in self.session.files) and entry.get("path_item_ref") == "sibling_file":
+            res.count("cov_subdirectory_operation_equal")
+        if self.swagger:
+            res.count("cov_swagger_operation_equal")
+            if entry.get("payload_overridden"):
+                res.count("cov_swagger_payload_override_equal")
+            if entry.get("payload_kind"):
+                res.count(f"cov_swagger_{entry['payload_kind']}_equal")
+            if entry.get("body_open"):
+                res.count("cov_swagger_media_type_left_to_implementation")
+            if len(entry["body"]) > 1:
+                res.count("cov_swagger_two_consumes_equal")
 
 
 def _component_class(component: str) -> str:
@@ -767,8 +1007,12 @@ def actions_of(judge: Judge) -> list[list]:
         if e.get("operation_id"):
             out.append(["id", e["operation_id"]])
         if e.get("path_item_ref") is None:
-            pointer = e["path"].replace("~", "~0").replace("/", "~1")
+            pointer = extra.pointer_of(e["path"])
             out.append(["ref", f"#/paths/{pointer}/{e['method']}", e["path"], e["method"]])
+            encoded = extra.percent_encoded(pointer)
+            if judge.item["spec"].get("pct") and encoded != pointer:
+                # the same JSON pointer in its URI fragment representation (RFC 6901 section 6)
+                out.append(["ref", f"#/paths/{encoded}/{e['method']}", e["path"], e["method"], "percent_encoded"])
     return out
 
 
@@ -843,6 +1087,27 @@ def vacuity(total: Result, tier: str) -> list[str]:
         "raw_compared_file_yaml_yaml": "from_file never loaded YAML",
         "raw_compared_resolver_yaml": "the resolver never loaded a YAML sibling file",
         f"histories_of_length_{BOUNDS[tier]['depth_R']}": "no history of the maximum depth was run",
+        # review round 2
+        "cov_override_equal_with_required_left_out": "no override written without `required` matched the reference",
+        "cov_equal_noise": "no document with fixed fields / extensions next to the methods matched the reference",
+        "cov_equal_params_last": "no document with `parameters` written after the methods matched the reference",
+        "cov_equal_reversed": "no document with reversed lists matched the reference",
+        "cov_equal_partial_ids": "no document with an operation without operationId matched the reference",
+        "cov_three_files_operation_equal": "no operation of a three-file layout matched the reference",
+        "cov_subdirectory_operation_equal": "no operation of a path items file in a subdirectory matched the reference",
+        "cov_equal_externalise_root": "no inline path item with parameters in the other file matched the reference",
+        "cov_equal_sec_ref": "no operation with security schemes behind $ref matched the reference",
+        "cov_lookup_equal_sec_ref": "no lookup with security schemes behind $ref matched the reference",
+        "cov_equal_op_security": "no operation-level requirement shape matched the reference",
+        "operations_behind_path_item_chain_judged": "no operation behind a path item $ref chain was judged",
+        "lookups_judged_ref_percent_encoded": "no percent-encoded reference was looked up",
+        "cov_equal_rename_path": "no path with `~` / space / braces matched the reference",
+        "cov_swagger_payload_override_equal": "no Swagger 2.0 body/formData override matched the reference",
+        "cov_swagger_body_equal": "no Swagger 2.0 body parameter matched the reference",
+        "cov_swagger_form_equal": "no Swagger 2.0 formData payload matched the reference",
+        "cov_swagger_two_consumes_equal": "no Swagger 2.0 payload with two media types matched the reference",
+        "cov_swagger_media_type_left_to_implementation": "no Swagger 2.0 payload without an applicable consumes list was judged",
+        "cov_lookup_equal_swagger": "no Swagger 2.0 lookup matched the reference",
     }
     for key, msg in need.items():
         if not c.get(key):
